@@ -690,6 +690,7 @@ func c04() {
 		}
 	}
 	c04Embedded()
+	c04Recursive()
 	c04LongLists()
 	c04LongStringsAndEnums()
 	c04Void()
